@@ -98,8 +98,7 @@ pub fn check_gen(g: u8, wtm: bool, ksq: u8, max_own: u32, max_total: u32) {
 }
 
 /// the engine's in-check verdict agrees with the rules, on every valid position
-#[kani::proof]
-pub fn c01_in_check() {
+pub fn c01_in_check_body() {
     let p = pos::any_valid();
     #[cfg(test)] println!("REPLAY-CASE {{\"fen\":\"{}\"}}", pos::fen_of(&p));
     let game = pos::game_of(&p);
